@@ -29,6 +29,9 @@ for _n in (0, 1, 2, 3, 4, 5, 9999):
     PROFILES["dbg%d" % _n] = ("gcc", ["-O0", "-g", "-DVERIF_DEBUG=%d" % _n])
     PROFILES["asan_dbg%d" % _n] = ("clang", PROFILES["asan"][1] + ["-DVERIF_DEBUG=%d" % _n])
 PROFILES["dbgundef"] = ("gcc", ["-O0", "-g", "-DVERIF_DEBUG=-1"])
+# release-style builds: NDEBUG belongs to <assert.h>, not to libast; the gates must not depend on it
+PROFILES["dbg4nd"] = ("gcc", ["-O2", "-g", "-DVERIF_DEBUG=4", "-DNDEBUG"])
+PROFILES["dbg0nd"] = ("gcc", ["-O2", "-g", "-DVERIF_DEBUG=0", "-DNDEBUG"])
 
 WARN_OFF = ["-w"]
 
